@@ -38,9 +38,24 @@ Qed.
 
 (* ---------- the directory a list of fits leaves behind ---------- *)
 
-Lemma outputs_write (specs : list fit_spec) : outputs false (map write_fit specs) = map write_fit specs.
+Definition healthy (s : fit_spec) : bool := negb (is_prefit s).
+
+(* a fit whose pre-fit output was interrupted has no `metadata` file (it is written last): the
+   aggregator does not see it *)
+Lemma outputs_write (specs : list fit_spec) :
+  outputs false (map write_fit specs) = map write_fit (filter healthy specs).
 Proof.
-  unfold outputs. induction specs as [|s r IH]; simpl; [reflexivity|]. rewrite IH. reflexivity.
+  unfold outputs, healthy. induction specs as [|s r IH]; simpl; [reflexivity|].
+  destruct (is_prefit s) eqn:E; simpl; rewrite IH; reflexivity.
+Qed.
+
+Lemma outputs_write_co (co : bool) (specs : list fit_spec) :
+  outputs co (map write_fit specs) = outputs co (map write_fit (filter healthy specs)).
+Proof.
+  unfold outputs, healthy. induction specs as [|s r IH]; simpl; [reflexivity|].
+  destruct (is_prefit s) eqn:E; simpl.
+  - exact IH.
+  - rewrite E. simpl. rewrite IH. reflexivity.
 Qed.
 
 Lemma grids_write (co : bool) (specs : list fit_spec) : grids co (map write_fit specs) = [].
@@ -81,42 +96,68 @@ Proof.
   - rewrite H10. destruct (has_samples s); reflexivity.
 Qed.
 
+(* scrape sees a directory only through its search outputs and its grid-search folders *)
+Lemma add_grids_outputs (uf co : bool) (d1 d2 : list folder) (gs : list folder) :
+  outputs co d1 = outputs co d2 -> forall db, add_grids uf co d1 gs db = add_grids uf co d2 gs db.
+Proof.
+  intro E. induction gs as [|g rest IH]; intro db; simpl; [reflexivity|].
+  destruct (has_id (gs_id uf g) db); [reflexivity|].
+  unfold cells_of. rewrite E. apply IH.
+Qed.
+
+Lemma scrape_outputs (classes : list search_class) (uf co : bool) (d1 d2 : list folder) (db : list row) :
+  outputs co d1 = outputs co d2 -> grids co d1 = grids co d2 ->
+  scrape classes uf co d1 db = scrape classes uf co d2 db.
+Proof.
+  intros E G. unfold scrape. rewrite E, G.
+  destruct (add_fits classes (outputs co d2) db); [|reflexivity].
+  apply add_grids_outputs. exact E.
+Qed.
+
+(* fits interrupted anywhere inside save_all leave the load of the directory unchanged: exactly the
+   other fits are loaded, whatever they are *)
+Theorem prefit_interrupted_harmless (classes : list search_class) (uf co : bool) (specs : list fit_spec) (db : list row) :
+  scrape classes uf co (map write_fit specs) db
+  = scrape classes uf co (map write_fit (filter healthy specs)) db.
+Proof. apply scrape_outputs; [apply outputs_write_co | rewrite !grids_write; reflexivity]. Qed.
+
 Theorem routes_agree (classes : list search_class) (uf : bool) (specs : list fit_spec) :
-  (forall s, In s specs -> spec_ok classes s) ->
-  NoDup (flat_map ids_of (map write_fit specs)) ->
+  (forall s, In s specs -> healthy s = true -> spec_ok classes s) ->
+  NoDup (flat_map ids_of (map write_fit (filter healthy specs))) ->
   exists db,
     scrape classes uf false (map write_fit specs) [] = Loaded db /\
     NoDup (map r_id db) /\
-    (forall s, In s specs ->
+    (forall s, In s specs -> healthy s = true ->
        exists r, In r db /\ r_id r = fs_id s /\ folder_name (write_fit s) = fs_id s /\
                  same_fit r (direct_row s) = true) /\
     (forall r, In r db -> r_name r <> None ->
-       exists s, In s specs /\ same_fit r (direct_row s) = true).
+       exists s, In s specs /\ healthy s = true /\ same_fit r (direct_row s) = true).
 Proof.
   intros Hok Hn.
   assert (W : wf classes uf false (map write_fit specs)).
   { split.
     - rewrite outputs_write. intros f Hf. apply in_map_iff in Hf. destruct Hf as (s & <- & Hs).
-      destruct (Hok s Hs) as (A & B & _). split; assumption.
+      apply filter_In in Hs. destruct Hs as [Hs Hh].
+      destruct (Hok s Hs Hh) as (A & B & _). split; assumption.
     - rewrite outputs_write, grids_write. simpl. rewrite app_nil_r. exact Hn. }
   destruct (lossless classes uf false _ W) as (db & Hs & Hnd & Hall & Hback).
   exists db. split; [exact Hs|]. split; [exact Hnd|]. split.
-  - intros s Hin. destruct (Hall (write_fit s)) as (r & Hr & Hh).
-    + rewrite outputs_write. apply in_map. exact Hin.
-    + exists r. split; [exact Hr|]. destruct (Hok s Hin) as (_ & _ & E1 & E2).
-      split; [destruct Hh as (Hid & _); rewrite Hid; exact E1|].
+  - intros s Hin Hh. destruct (Hall (write_fit s)) as (r & Hr & Hhold).
+    + rewrite outputs_write. apply in_map. apply filter_In. split; assumption.
+    + exists r. split; [exact Hr|]. destruct (Hok s Hin Hh) as (_ & _ & E1 & E2).
+      split; [destruct Hhold as (Hid & _); rewrite Hid; exact E1|].
       split; [apply folder_name_write|]. apply holds_direct; assumption.
   - intros r Hr Hname.
     assert (Hg : r_grid r = false).
-    { (* no grid searches in this directory: every row is a fit row or a child row *)
-      rewrite (scrape_closed classes uf false _ W) in Hs. injection Hs as <-.
+    { rewrite (scrape_closed classes uf false _ W) in Hs. injection Hs as <-.
       rewrite (loaded_db_closed classes) in Hr by exact W. rewrite grids_write in Hr.
       simpl in Hr. rewrite app_nil_r in Hr. apply in_map_iff in Hr. destruct Hr as (r0 & <- & Hr0).
       simpl. apply in_flat_map in Hr0. destruct Hr0 as (f & _ & [<-|Hr0]); [reflexivity|].
       unfold child_rows in Hr0. apply child_rows_from_props in Hr0. tauto. }
     destruct (Hback r Hr Hg Hname) as (f & Hf & Hh).
     rewrite outputs_write in Hf. apply in_map_iff in Hf. destruct Hf as (s & <- & Hin).
-    exists s. split; [exact Hin|]. destruct (Hok s Hin) as (_ & _ & E1 & E2).
+    apply filter_In in Hin. destruct Hin as [Hin Hhl].
+    exists s. split; [exact Hin|]. split; [exact Hhl|]. destruct (Hok s Hin Hhl) as (_ & _ & E1 & E2).
     apply holds_direct; assumption.
 Qed.
 
